@@ -151,4 +151,176 @@ theorem all_histories (pi tiny : ℝ) (ht : 0 < tiny) (f : List ℝ → ℝ) (ps
   obtain ⟨w, e, hi, hs⟩ := key upds w0 (fun u hu => by rw [hlen0]; exact hl u hu) hinv0 hsync0
   exact ⟨w0, w, hw0, e, wrap_f_eq pi f w hs, fun s hs' => ⟨(hi s hs').fn, (hs s hs').1⟩⟩
 
+/-! ## Derivatives: the chain rule -/
+
+/-- for every transformed parameter `init_` can build, `getFirstOrderDerivative` is the derivative
+of the back-transformation with respect to the transformed coordinate -/
+theorem tp_d1_is_derivative (pi : ℝ) (tp : TP ℝ) (h : TPWF tp) :
+    HasDerivAt (fun x => (tp.setX x).getOriginal pi) (tp.d1 pi) tp.x := by
+  cases tp with
+  | r t =>
+    have := r_d1_is_derivative t h
+    simpa [TP.setX, TP.getOriginal, TP.d1, TP.x, RT.at] using this
+  | i t =>
+    have := interval_d1_is_derivative_hyper pi t h.1 h.2.1 h.2.2
+    simpa [TP.setX, TP.getOriginal, TP.d1, TP.x, IT.at] using this
+  | p x0 =>
+    have h0 : HasDerivAt (fun x : ℝ => x) 1 x0 := hasDerivAt_id x0
+    simpa [TP.setX, TP.getOriginal, TP.d1, TP.x] using h0
+
+/-- ... and `getSecondOrderDerivative` the derivative of `getFirstOrderDerivative` (for a half-line
+away from the junction `x = 0`, see `r_d2_not_derivative_at_junction`) -/
+theorem tp_d2_is_derivative (pi : ℝ) (tp : TP ℝ) (h : TPWF tp)
+    (hx : ∀ t, tp = .r t → t.x ≠ 0) :
+    HasDerivAt (fun x => (tp.setX x).d1 pi) (tp.d2 pi) tp.x := by
+  cases tp with
+  | r t =>
+    have := r_d2_is_derivative t h (hx t rfl)
+    simpa [TP.setX, TP.d1, TP.d2, TP.x, RT.at] using this
+  | i t =>
+    have := interval_d2_is_derivative pi t h.2.1 (by simp [h.1])
+    simpa [TP.setX, TP.d1, TP.d2, TP.x, IT.at] using this
+  | p x0 =>
+    simpa [TP.setX, TP.d1, TP.d2, TP.x] using hasDerivAt_const x0 (1 : ℝ)
+
+/-- Chain rule, first order.  `w` is a wrapper whose slot `i` is `s`; the wrapped function `f` has
+partial derivative `df p i` with respect to its `i`-th parameter at the back-transformed point.
+Then the wrapper's value, as a function of the `i`-th transformed coordinate, has derivative
+`df(...) i * getFirstOrderDerivative` — the product `getFirstOrderDerivative(variable)` returns
+(h:141-145). -/
+theorem chain_rule_1 (pi : ℝ) (f : List ℝ → ℝ) (df : List ℝ → Nat → ℝ) (w : W ℝ) (i : Nat)
+    (s : Slot ℝ) (hi : w[i]? = some s) (hwf : TPWF s.tp) (hsync : ∀ s ∈ w, Sync pi s)
+    (hf : HasDerivAt (fun y => f ((origs pi w).set i y)) (df (origs pi w) i) (s.tp.getOriginal pi)) :
+    ∃ d, Reparam.d1 pi df w i = some d ∧
+      HasDerivAt (fun x => f (origs pi (w.set i (s.atX x)))) d s.tp.x := by
+  refine ⟨df (origs pi w) i * s.tp.d1 pi, ?_, ?_⟩
+  · simp [Reparam.d1, hi, fnVals_eq_origs hsync]
+  · have hT := tp_d1_is_derivative pi s.tp hwf
+    have e : (fun x => f (origs pi (w.set i (s.atX x))))
+        = (fun y => f ((origs pi w).set i y)) ∘ (fun x => (s.tp.setX x).getOriginal pi) := by
+      funext x; simp [origs_set]
+    rw [e]
+    apply HasDerivAt.comp
+    · simpa using hf
+    · exact hT
+
+/-- Chain rule, second order, same variable: the derivative of the wrapper's first derivative is
+`f'' * T'^2 + f' * T''` (h:197-203) -/
+theorem chain_rule_2 (pi : ℝ) (df : List ℝ → Nat → ℝ) (d2f : List ℝ → Nat → Nat → ℝ) (w : W ℝ)
+    (i : Nat) (s : Slot ℝ) (hi : w[i]? = some s) (hwf : TPWF s.tp) (hsync : ∀ s ∈ w, Sync pi s)
+    (hx : ∀ t, s.tp = .r t → t.x ≠ 0)
+    (hf2 : HasDerivAt (fun y => df ((origs pi w).set i y) i) (d2f (origs pi w) i i) (s.tp.getOriginal pi)) :
+    ∃ d, Reparam.d2 pi df d2f w i = some d ∧
+      HasDerivAt (fun x => df (origs pi (w.set i (s.atX x))) i * (s.tp.setX x).d1 pi) d s.tp.x := by
+  refine ⟨d2f (origs pi w) i i * (s.tp.d1 pi) ^ 2 + df (origs pi w) i * s.tp.d2 pi, ?_, ?_⟩
+  · simp [Reparam.d2, hi, fnVals_eq_origs hsync]
+  · have hT := tp_d1_is_derivative pi s.tp hwf
+    have hT2 := tp_d2_is_derivative pi s.tp hwf hx
+    have e : (fun x => df (origs pi (w.set i (s.atX x))) i)
+        = (fun y => df ((origs pi w).set i y) i) ∘ (fun x => (s.tp.setX x).getOriginal pi) := by
+      funext x; simp [origs_set]
+    have hA : HasDerivAt (fun x => df (origs pi (w.set i (s.atX x))) i)
+        (d2f (origs pi w) i i * s.tp.d1 pi) s.tp.x := by
+      rw [e]
+      apply HasDerivAt.comp
+      · simpa using hf2
+      · exact hT
+    have := hA.mul hT2
+    refine this.congr_deriv ?_
+    have e0 : origs pi (w.set i (s.atX s.tp.x)) = origs pi w := by
+      rw [origs_set]; simp only [setX_self]
+      unfold origs
+      apply List.ext_getElem? ; intro k
+      by_cases hk : k = i
+      · subst hk; simp [List.getElem?_set, hi]
+        rcases lt_or_ge k w.length with hl | hl
+        · simp [hl]
+        · simp [List.getElem?_eq_none hl] at hi
+      · simp [Ne.symm hk]
+    simp only [setX_self, e0]
+    ring
+
+/-- Chain rule, second order, two different variables: `f_ij * T_i' * T_j'` (h:205-210) -/
+theorem chain_rule_2_cross (pi : ℝ) (df : List ℝ → Nat → ℝ) (d2f : List ℝ → Nat → Nat → ℝ) (w : W ℝ)
+    (i j : Nat) (_hij : i ≠ j) (si sj : Slot ℝ) (hi : w[i]? = some si) (hj : w[j]? = some sj)
+    (hwf : TPWF sj.tp) (hsync : ∀ s ∈ w, Sync pi s)
+    (hfx : HasDerivAt (fun y => df ((origs pi w).set j y) i) (d2f (origs pi w) i j) (sj.tp.getOriginal pi)) :
+    ∃ d, Reparam.d2x pi d2f w i j = some d ∧
+      HasDerivAt (fun x => df (origs pi (w.set j (sj.atX x))) i * si.tp.d1 pi) d sj.tp.x := by
+  refine ⟨d2f (origs pi w) i j * si.tp.d1 pi * sj.tp.d1 pi, ?_, ?_⟩
+  · simp [Reparam.d2x, hi, hj, fnVals_eq_origs hsync]
+  · have hT := tp_d1_is_derivative pi sj.tp hwf
+    have e : (fun x => df (origs pi (w.set j (sj.atX x))) i)
+        = (fun y => df ((origs pi w).set j y) i) ∘ (fun x => (sj.tp.setX x).getOriginal pi) := by
+      funext x; simp [origs_set]
+    have hA : HasDerivAt (fun x => df (origs pi (w.set j (sj.atX x))) i)
+        (d2f (origs pi w) i j * sj.tp.d1 pi) sj.tp.x := by
+      rw [e]
+      apply HasDerivAt.comp
+      · simpa using hfx
+      · exact hT
+    refine (hA.mul_const (si.tp.d1 pi)).congr_deriv ?_
+    ring
+
+/-- the factor used in `chain_rule_2_cross` is the wrapper's first derivative with respect to
+`i`, which does not depend on the `j`-th transformed coordinate except through the point -/
+theorem d1_after_other_coordinate (pi : ℝ) (df : List ℝ → Nat → ℝ) (w : W ℝ) (i j : Nat)
+    (hij : i ≠ j) (si sj : Slot ℝ) (hi : w[i]? = some si) (x : ℝ) :
+    Reparam.d1 pi df (w.set j (sj.atX x)) i
+      = some (df (fnVals (w.set j (sj.atX x))) i * si.tp.d1 pi) := by
+  simp [Reparam.d1, Ne.symm hij, hi]
+
+/-! ## With the library's constants (regenerated from NumConstants.h on every run) -/
+
+theorem wrap_preserves_values_lib (ps : List (Shape ℝ × ℝ)) (h : ∀ p ∈ ps, Admits libTINY p.1 p.2) :
+    ∃ w, init libPI libTINY ps = .ok w ∧
+      fnVals w = ps.map (·.2) ∧ w.map (·.fp) = ps.map (·.2) ∧ w.map (·.shape) = ps.map (·.1) ∧
+      origs libPI w = ps.map (fun p => nudge libTINY p.1 p.2) ∧
+      (∀ s ∈ w, SlotInv libTINY s) :=
+  wrap_preserves_values libPI libTINY libTINY_pos ps h
+
+theorem all_histories_lib (f : List ℝ → ℝ) (ps : List (Shape ℝ × ℝ))
+    (h : ∀ p ∈ ps, Admits libTINY p.1 p.2) (hn : ∀ p ∈ ps, NotNudged libTINY p.1 p.2)
+    (upds : List (List (Option ℝ))) (hl : ∀ u ∈ upds, u.length = ps.length) :
+    ∃ w0 w, init libPI libTINY ps = .ok w0 ∧ Reparam.run libPI w0 upds = .ok w ∧
+      Reparam.value f w = f (origs libPI w) ∧
+      (∀ s ∈ w, s.shape.Accepts s.fn ∧ s.fn = s.tp.getOriginal libPI) :=
+  all_histories libPI libTINY libTINY_pos f ps h hn upds hl
+
+/-! ## Non-vacuity: the hypotheses are satisfiable -/
+
+/-- `TINY()` is small: the hypotheses `Admits`/`NotNudged` hold for ordinary data -/
+theorem libTINY_lt : (libTINY : ℝ) < 1 / 1000 := by
+  simp only [libTINY, Generated.TransformConstants.TINY, ScalarReal.ofRat_eq]
+  norm_num
+
+example : ∀ p ∈ [((Shape.cc 0 1 : Shape ℝ), (1 / 2 : ℝ)), (Shape.gt 0, 2), (Shape.oo (-1) 1, 0),
+    (Shape.le 3, 3), (Shape.none, 7)], Admits libTINY p.1 p.2 := by
+  have h1 := libTINY_pos
+  have h2 := libTINY_lt
+  intro p hp
+  simp only [List.mem_cons, List.not_mem_nil, or_false] at hp
+  rcases hp with rfl | rfl | rfl | rfl | rfl <;> simp only [Admits] <;>
+    (try trivial) <;> (try constructor) <;> (try constructor) <;> linarith
+
+example : ∀ p ∈ [((Shape.cc 0 1 : Shape ℝ), (1 / 2 : ℝ)), (Shape.gt 0, 2), (Shape.oo (-1) 1, 0)],
+    NotNudged libTINY p.1 p.2 := by
+  have h2 := libTINY_lt
+  intro p hp
+  simp only [List.mem_cons, List.not_mem_nil, or_false] at hp
+  rcases hp with rfl | rfl | rfl <;> simp only [NotNudged]
+  constructor <;> norm_num <;> linarith
+
+/-- the chain rule applies to an actual function: `f(p) = p₀²` behind a placebo transform -/
+example : ∃ d, Reparam.d1 libPI (fun p _ => 2 * p.headD 0) [Slot.mk (TP.p 3) Shape.none 3 3] 0 = some d ∧
+    HasDerivAt (fun x => (fun p : List ℝ => (p.headD 0) ^ 2)
+      (origs libPI ([Slot.mk (TP.p 3) Shape.none 3 3].set 0 ((Slot.mk (TP.p 3) Shape.none 3 3).atX x)))) d 3 := by
+  have := chain_rule_1 libPI (fun p : List ℝ => (p.headD 0) ^ 2) (fun p _ => 2 * p.headD 0)
+    [Slot.mk (TP.p 3) Shape.none 3 3] 0 (Slot.mk (TP.p 3) Shape.none 3 3) rfl trivial
+    (by intro s hs; simp at hs; subst hs; simp [Sync, TP.getOriginal])
+    (by
+      have h : HasDerivAt (fun y : ℝ => y ^ 2) (2 * 3) 3 := by simpa using hasDerivAt_pow 2 (3 : ℝ)
+      simpa [origs, TP.getOriginal] using h)
+  simpa [TP.x] using this
+
 end Bpp.C11
